@@ -115,6 +115,14 @@ def verify_function(c, extra_options=None):
                 raise BindingFailure(f"{c.short}: sidecar has an invariant for loop #{ordn}, source has {len(fs.loops)} loops")
         if "nloops" in c.options and c.options["nloops"] != len(fs.loops):
             raise BindingFailure(f"{c.short}: source has {len(fs.loops)} loops, sidecar expects {c.options['nloops']}")
+        rec = frontend.recorded_heads(c.key, c.variant)
+        if rec is not None and c.loops:
+            heads = [frontend.loop_head(n) for n in fs.loops]
+            if rec["nloops"] != len(heads):
+                raise BindingFailure(f"{c.short}: source has {len(heads)} loops, the sidecar was written against {rec['nloops']} (loop invariants are bound by ordinal)")
+            for ordn in c.loops:
+                if isinstance(ordn, int) and rec["heads"][ordn] != heads[ordn]:
+                    raise BindingFailure(f"{c.short}: loop #{ordn} is now `{heads[ordn]}`, the sidecar invariant was written for `{rec['heads'][ordn]}`")
         st = entry_state(ex, c, fs)
         for nm, e in c.requires.items():
             st.assume(zbool(ex.spec_eval(e, st)), tag=f"req:{nm}")
@@ -232,6 +240,13 @@ class _Alt:
 
 
 def verify_portfolio(c, extra_options=None, modes=("naive", "fuel")):
+    if c.options.get("rel_vary") is not None:
+        from . import relational
+        return relational.verify_relational(c)
+    return _verify_portfolio(c, extra_options, modes)
+
+
+def _verify_portfolio(c, extra_options=None, modes=("naive", "fuel")):
     """VCs of one contract under several sound encodings of the recursive spec functions.
 
     The primary obligations come from the first mode; the same obligation (same id) generated under
